@@ -169,12 +169,49 @@ def check_random(case):
     return check_enum(case)
 
 
+@st.composite
+def tensor_swap_cases(draw, tier):
+    dims = st.lists(st.integers(2, 3), max_size=3)
+    return {"l": draw(dims), "r": draw(dims)}
+
+
+def check_tensor_swap(case):
+    """ The concrete Tensor.swap (what tensor functors evaluate swaps to) is
+    the 0/1 array of the block swap, and agrees with the evaluation of the
+    diagram made of adjacent swaps. """
+    import numpy as np
+    from discopy.tensor import Tensor, Dim, Diagram
+    l, r = case["l"], case["r"]
+    t = Tensor.swap(Dim(*l), Dim(*r))
+    require(list(t.dom) == l + r and list(t.cod) == r + l, "C10:tensor-swap-"
+            "types", lambda: "{} -> {}".format(t.dom, t.cod))
+    shape = tuple(l + r + r + l)
+    ref = np.zeros(shape or (), dtype=complex)
+    for idx in itertools.product(*[range(n) for n in l + r]):
+        a, b = idx[:len(l)], idx[len(l):]
+        ref[tuple(idx) + tuple(b) + tuple(a)] = 1
+    got = np.asarray(t.array, dtype=complex).reshape(ref.shape)
+    require(np.array_equal(got, ref), "C10:tensor-swap-not-realised",
+            lambda: "Tensor.swap(Dim{}, Dim{})".format(tuple(l), tuple(r)))
+    d = Diagram.swap(Dim(*l), Dim(*r))
+    ev = np.asarray(d.eval().array, dtype=complex).reshape(ref.shape)
+    require(np.array_equal(ev, ref), "C10:tensor-diagram-swap-eval",
+            lambda: "Diagram.swap(Dim{}, Dim{}).eval()".format(
+                tuple(l), tuple(r)))
+    return dict(nt=len(l) != len(r) and l and r, labels=[
+        "%dx%d" % (len(l), len(r))], show="Tensor.swap({}, {})".format(l, r))
+
+
 core.register("C10", [
     Facet("exhaustive", None, check_enum, enum=enum_cases, shards_quick=8,
           rule=RULE),
     Facet("random", random_cases, check_random, n_quick=1500, shards_quick=2,
           rule="random permutations of length 5-8, swaps up to 6x6, "
           "non-permutations and length mismatches (must be refused)"),
+    Facet("tensor_swap", tensor_swap_cases, check_tensor_swap, n_quick=400,
+          shards_quick=2, rule="Tensor.swap of blocks of 0-3 wires of "
+          "dimension 2-3 against the explicit 0/1 array; non-trivial = blocks "
+          "of different non-zero lengths"),
 ], rule=RULE, assumptions=[
     "positions are tracked through the adjacent transpositions read from "
     "boxes/offsets; with all-distinct wire types the codomain also shows the "
